@@ -1,4 +1,71 @@
-From PegtlV Require Import Base Engine.
-Theorem C02_placeholder : forall c, guard true c (Res Fail c []) = Res Fail c [].
-Proof. reflexivity. Qed.
-Print Assumptions C02_placeholder.
+(* Properties_C02.v — C02: a locally failing rule never leaves input consumed.
+   Theorems only; proofs are in EngineFacts.v / AtomFacts.v / LookFacts.v.
+   Quantifiers: every grammar table G whose decoder widths are well-formed (table_wf: what the
+   translator can produce), every configuration C (action attachments, vetoes, throwing
+   actions, controls with/without unwind, must_if-style controls), every dynamic context d,
+   every rule r, every cursor c (all inputs, all sub-inputs), every fuel f. *)
+From PegtlV Require Import Base Decode Grammar Engine EngineFacts AtomFacts LookFacts.
+
+(* required mode + local failure => the whole cursor record (remaining bytes, byte, line, column) is unchanged *)
+Theorem C02_required_restores :
+  forall G C f d r c c' evs, table_wf G -> dM d = true ->
+    eval G C f d r c = Res Fail c' evs -> c' = c.
+Proof.
+  intros G C f d r c c' evs HG Hm H.
+  pose proof (eval_goodT G C f d r c HG) as K. rewrite H, Hm in K. exact K.
+Qed.
+Print Assumptions C02_required_restores.
+
+(* at<> / not_at<> never move the cursor: success, local failure or exception; with or without
+   hooks, actions, vetoes, state/limit actions attached to the look-ahead rule itself *)
+Theorem C02_lookahead_fixed :
+  forall G C r nd r1, nth_error G r = Some nd -> is_look (nhead nd) = true -> nsubs nd = [r1] ->
+    forall f d c o c' evs, eval G C f d r c = Res o c' evs -> c' = c.
+Proof.
+  intros G C r nd r1 Hn Hl Hs f d c o c' evs H.
+  pose proof (lookahead_fixes G C r nd Hn Hl (ex_intro _ r1 Hs) f d c) as K. rewrite H in K. exact K.
+Qed.
+Print Assumptions C02_lookahead_fixed.
+
+(* success (and an exception passing through) never moves the cursor backwards or beyond the end:
+   the new remaining input is a suffix of the old one *)
+Theorem C02_monotone :
+  forall G C f d r c o c' evs, table_wf G -> eval G C f d r c = Res o c' evs -> o <> Fail ->
+    exists consumed, rest c = consumed ++ rest c'.
+Proof.
+  intros G C f d r c o c' evs HG H Ho.
+  pose proof (eval_goodT G C f d r c HG) as K. rewrite H in K.
+  destruct o as [| |e]; [| congruence |]; destruct K as [pre [K _]]; exists pre; exact K.
+Qed.
+Print Assumptions C02_monotone.
+
+(* optional mode: a failing rule may leave the cursor advanced, but only forwards within the input *)
+Theorem C02_optional_forward :
+  forall G C f d r c c' evs, table_wf G -> eval G C f d r c = Res Fail c' evs ->
+    exists consumed, rest c = consumed ++ rest c'.
+Proof.
+  intros G C f d r c c' evs HG H.
+  pose proof (eval_goodT G C f d r c HG) as K. rewrite H in K. simpl in K.
+  destruct (dM d); [subst c'; exists []; reflexivity | destruct K as [pre [K _]]; exists pre; exact K].
+Qed.
+Print Assumptions C02_optional_forward.
+
+(* non-vacuity: seq< one<'a'>, one<'b'> > on "ac": consumes 'a', fails on 'c'; required => restored,
+   optional => left advanced (so the theorem's hypothesis dM d = true matters) *)
+Definition ex_G : grammar :=
+  [ mknode HSeq [1; 2]%nat true; mknode (HOne true PkChar [97%Z]) [] true; mknode (HOne true PkChar [98%Z]) [] true ].
+Definition ex_C : cfg := mkcfg EolLfCrlf (fun _ _ => AKNone) (fun _ _ _ _ => ARet true) (fun _ _ _ => ARet true) (fun _ => true) (fun _ _ => false).
+Definition ex_c : cursor := mkcur [97; 99]%N pos0.
+Example C02_example_required :
+  table_wf ex_G /\
+  exists evs, eval ex_G ex_C 10 (mkdyn true true 0 0 0) 0%nat ex_c = Res Fail ex_c evs.
+Proof.
+  split.
+  - intros r nd H. destruct r as [|[|[|r]]]; simpl in H; try (inversion H; subst; exact I). destruct r; discriminate.
+  - eexists. vm_compute. reflexivity.
+Qed.
+Print Assumptions C02_example_required.
+Example C02_example_optional_moves :
+  exists c' evs, eval ex_G ex_C 10 (mkdyn true false 0 0 0) 0%nat ex_c = Res Fail c' evs /\ rest c' = [99%N].
+Proof. eexists. eexists. vm_compute. split; reflexivity. Qed.
+Print Assumptions C02_example_optional_moves.
